@@ -17,6 +17,7 @@ import itertools
 import json
 import os
 import random
+import shutil
 import subprocess
 import sys
 import time
@@ -126,6 +127,7 @@ def _build(d, wide=True):
         paths['wide'] = os.path.join(d, 'wide.xlsx')
         lib.write_workbook(_wide_spec(), paths['wide'])
     paths['missing'] = os.path.join(d, 'does_not_exist.xlsx')
+    paths['slotseq'] = os.path.join(d, 'slotseq.xlsx')
     paths['notzip'] = os.path.join(d, 'notzip.xlsx')
     with open(paths['notzip'], 'wb') as f:
         f.write(b'this is not a workbook')
@@ -156,6 +158,9 @@ def _mk_entry(eid):
 def _fresh(path, eid, safety):
     """a fresh parser configured with exactly these settings"""
     from excel2pycl import Parser
+    if isinstance(path, dict):            # {'copy': source, 'to': path}: the workbook stored at the path is replaced first
+        shutil.copyfile(path['copy'], path['to'])
+        path = path['to']
     p = Parser()
     if path is not None:
         p.set_excel_file_path(path)
@@ -173,10 +178,11 @@ def _job_configs(job):
 
 
 def _run_history(ops, paths, outs):
-    """ops: ['P', wb|None] ['E', eid, 'shared'|'fresh'] ['S', 0|1] ['G'] ['W', k] ['F', k] (pre-fill out file k with a long text)"""
+    """ops: ['P', wb|'slot'] ['E', eid, 'shared'|'fresh'] ['S', 0|1] ['G'] ['W', k] ['F', k] (pre-fill out file k with a long text)
+    ['C', wb] (replace the workbook stored at the path 'slot' by a copy of wb)"""
     from excel2pycl import Parser
-    for o in outs:
-        if os.path.exists(o):
+    for o in list(outs) + [paths.get('slot')]:
+        if o and os.path.exists(o):
             os.remove(o)
     p = Parser()
     shared, obs = {}, []
@@ -195,6 +201,8 @@ def _run_history(ops, paths, outs):
                 p.set_entrypoint_cell(c)
             elif k == 'S':
                 (p.enable_safety_check if op[1] else p.disable_safety_check)()
+            elif k == 'C':
+                shutil.copyfile(paths[op[1]], paths['slot'])
             elif k == 'F':
                 with open(outs[op[1]], 'w', encoding='utf-8') as f:
                     f.write('# old content\n' * 20000)
@@ -230,6 +238,12 @@ def _job_threads(job):
     sys.setswitchinterval(job.get('switch', 1e-5))
     barrier = threading.Barrier(len(plans))
     results = [[] for _ in plans]
+    if job.get('sequential'):              # control run: the same translations one after the other
+        for i in range(len(plans)):
+            for _ in range(rounds):
+                for c in plans[i]:
+                    results[i].append(_summ(_fresh(*c)))
+        return results
 
     def work(i):
         barrier.wait()
@@ -303,7 +317,15 @@ def _spawn_many(jobs, hashseeds=None, workers=16):
         return list(ex.map(lambda a: _spawn(a[0], a[1]), zip(jobs, hashseeds)))
 
 
+def _norm(c):
+    """'slot:<wb>' = the workbook <wb> stored at the re-used path: the reference is the one of <wb>"""
+    if isinstance(c[0], str) and c[0].startswith('slot:'):
+        return (c[0][5:], c[1], c[2])
+    return tuple(c)
+
+
 def _ckey(c):
+    c = _norm(c)
     return f'{c[0]}|{c[1]}|{c[2]}'
 
 
@@ -320,7 +342,7 @@ class Table:
             k = _ckey(c)
             if k not in self.t and k not in seen:
                 seen.add(k)
-                todo.append(list(c))
+                todo.append(list(_norm(c)))
         if not todo:
             return
         nproc = min(16, len(todo))
@@ -358,19 +380,30 @@ def _same(obs, exp):
 
 
 SETTER = {'P': 'set_path', 'E': 'set_entry', 'S': 'safety'}
+_SERIAL = itertools.count()
 
 
 def _judge(ops, obs, table):
     """first violated observation of one history -> (clause, key, what, index) or None; also yields per-observation records"""
     state = [None, None, None]
+    path_is_slot = False
     by_index = {o[0]: o for o in obs}
     prev_obs = None            # (index, outcome, config) of the previous observation
     since = []                 # setter kinds since the previous observation
     records, earlier = [], []
+    slot, dirty = None, False      # workbook stored at the path 'slot'; dirty: replaced after the path was set (no clause until set again)
     for i, op in enumerate(ops):
         k = op[0]
+        if k == 'C':
+            slot = op[1]
+            dirty = dirty or path_is_slot
+            continue
         if k == 'P':
-            state[0] = op[1]
+            path_is_slot = op[1] == 'slot'
+            if path_is_slot and slot is None:
+                return None, records          # not a history of the scope (nothing stored at the path yet)
+            state[0] = slot if path_is_slot else op[1]
+            dirty = False
         elif k == 'E':
             state[1] = op[1]
         elif k == 'S':
@@ -384,8 +417,11 @@ def _judge(ops, obs, table):
         if i not in by_index:
             return ('settings', 'C09.history.no_observation', f'{ops}: no observation at {i}', i), records
         got = by_index[i][2]
+        if dirty:
+            prev_obs, since = (i, got, None, True), []
+            continue
         exp = table.get(tuple(state))
-        repeat = prev_obs is not None and not since
+        repeat = prev_obs is not None and not since and prev_obs[2] is not None
         rec = {'clause': 'repeat' if repeat else ('written' if k == 'W' else 'settings'), 'op': k, 'cached': prev_obs is not None,
                'sig': (prev_obs[2] if prev_obs else None, tuple(since), tuple(state), k)}
         records.append(rec)
@@ -407,6 +443,8 @@ def _judge(ops, obs, table):
                 clause = 'repeat'
             else:
                 last = since[-1] if since else 'none'
+                if path_is_slot and last == 'set_path' and any(e[3] for e in earlier):
+                    last = 'set_same_path_new_workbook'
                 key = f"C09.{'written_file' if k == 'W' else 'settings'}.after_{last}.{sym}"
                 clause = 'written' if k == 'W' else 'settings'
             clause = clause + '/' + sym
@@ -414,7 +452,7 @@ def _judge(ops, obs, table):
                     f'path={state[0]}, entry={state[1]}, safety={state[2]} gives {_short(exp)}'
                     + (f'; previous call without a change gave {_short(prev_obs[1])}' if repeat else ''))
             return (clause, key, what, i), records
-        prev_obs = (i, got, tuple(state))
+        prev_obs = (i, got, tuple(state), path_is_slot)
         earlier.append(prev_obs)
         since = []
     return None, records
@@ -428,8 +466,11 @@ def _run_histories(histories, paths, d, chunk=None, seeds=None):
     """-> list of observation lists (same order); each chunk in a fresh process"""
     chunk = chunk or max(20, min(400, -(-len(histories) // 32)))
     chunks = [histories[i:i + chunk] for i in range(0, len(histories), chunk)]
-    jobs = [{'job': 'histories', 'paths': {**paths, 'None': None}, 'histories': c,
-             'outs': [os.path.join(d, f'out_{n}_{j}.py') for j in range(2)]} for n, c in enumerate(chunks)]
+    jobs = []
+    for c in chunks:
+        n = next(_SERIAL)
+        jobs.append({'job': 'histories', 'paths': {**paths, 'None': None, 'slot': os.path.join(d, f'slot_{n}.xlsx')}, 'histories': c,
+                     'outs': [os.path.join(d, f'out_{n}_{j}.py') for j in range(2)]})
     res = _spawn_many(jobs, seeds)
     out = []
     for c, r in zip(chunks, res):
@@ -445,10 +486,12 @@ def _norm_hist(h):
 
 
 def _states_of(h):
-    st, out = [None, None, None], []
+    st, out, slot = [None, None, None], [], None
     for op in h:
-        if op[0] == 'P':
-            st[0] = op[1]
+        if op[0] == 'C':
+            slot = op[1]
+        elif op[0] == 'P':
+            st[0] = slot if op[1] == 'slot' else op[1]
         elif op[0] == 'E':
             st[1] = op[1]
         elif op[0] == 'S':
@@ -464,22 +507,28 @@ def _single(h, paths, d, table):
     return _judge(h, obs[0], table)[0]
 
 
-def _minimise(h, paths, d, table, clause, budget=12):
-    """greedy removal of operations keeping clause and symptom of the failure (each attempt runs in a fresh process)"""
+def _minimise(h, paths, d, table, key, budget=12):
+    """greedy removal of operations keeping the failure key; then the setters between the last two calls are dropped when the
+    same symptom persists without them (they are not the cause then).  Each attempt runs in a fresh process."""
     cur = list(h)
-    changed = True
-    while changed and budget > 0:
-        changed = False
-        for i in range(len(cur) - 1):
-            cand = cur[:i] + cur[i + 1:]
-            budget -= 1
-            v = _single(cand, paths, d, table)
-            if v is not None and v[0] == clause:
-                cur = cand[:v[3] + 1]
-                changed = True
-                break
-            if budget <= 0:
-                break
+    sym = key.rsplit('.', 1)[1]
+    for stage in (0, 1):
+        changed = True
+        while changed and budget > 0:
+            changed = False
+            obs_idx = [i for i, o in enumerate(cur[:-1]) if o[0] in ('G', 'W')]
+            lo = 0 if stage == 0 else (obs_idx[-1] + 1 if obs_idx else 0)
+            for i in range(lo, len(cur) - 1):
+                cand = cur[:i] + cur[i + 1:]
+                budget -= 1
+                v = _single(cand, paths, d, table)
+                if v is not None and (v[1] == key if stage == 0 else v[1].rsplit('.', 1)[1] == sym):
+                    cur = cand[:v[3] + 1]
+                    changed = True
+                    break
+                if budget <= 0:
+                    break
+        budget += 4
     return cur
 
 
@@ -505,7 +554,7 @@ def _sweep(name, histories, paths, d, table, bound, rule, exhaustive, t0, sample
         key, (h, what, at, n, clause) = item
         h = h[:at + 1]
         alone = _single(h, paths, d, table)
-        if alone is None or alone[0] != clause:
+        if alone is None or alone[1] != key:
             # only fails after the earlier histories of its chunk: a process-history effect
             start = (n // csize) * csize
             prefix = histories[start:n + 1]
@@ -517,10 +566,10 @@ def _sweep(name, histories, paths, d, table, bound, rule, exhaustive, t0, sample
                     break
                 if size >= len(prefix):
                     break
-            k2 = 'C09.process_history.' + key.split('.', 1)[1]
+            k2 = 'C09.process_history.in_history_sweep.' + key.rsplit('.', 1)[1]
             return {'key': k2, 'what': f'only after {len(prefix) - 1} earlier histories in the same process: ' + what,
                     'replay': {'kind': 'chunk', 'histories': prefix, 'key': key}}
-        hm = _minimise(h, paths, d, table, clause)
+        hm = _minimise(h, paths, d, table, key)
         v = _single(hm, paths, d, table)
         if v is None:
             hm, v = h, alone
@@ -570,11 +619,14 @@ def _sampled_histories(rng, count):
     wbs = HIST_WBS
     for _ in range(count):
         n = rng.randint(4, 10)
-        h = []
+        h, filled = [], False
         for _ in range(n - 1):
             x = rng.random()
-            if x < 0.25:
-                h.append(['P', rng.choice(wbs)])
+            if x < 0.06:
+                h.append(['C', rng.choice(SLOT_WBS)])
+                filled = True
+            elif x < 0.25:
+                h.append(['P', rng.choice(wbs + (['slot', 'slot'] if filled else []))])
             elif x < 0.47:
                 h.append(['E', rng.choice(HIST_ENTRIES), rng.choice(['shared', 'shared', 'fresh'])])
             elif x < 0.67:
@@ -616,6 +668,25 @@ def _raise_histories(table):
                 st = _setters(c)
                 st = [st[i] for i in perm if i < len(st)]
                 out.append(pr + st + [['G'], ['G'], ['W', 0], ['G'], ['P', 'base'], ['E', 'c1s', 'shared'], ['S', 0], ['G'], ['W', 0]])
+    return out
+
+
+SLOT_WBS = ['base', 'twin', 'unsafe', 'malformed', 'uni']
+
+
+def _slot_histories():
+    """the workbook stored at one path is replaced and the same path is set again"""
+    out = []
+    for a in SLOT_WBS:
+        for b in SLOT_WBS:
+            if a == b:
+                continue
+            for e in (None, 'c1s', 'ob1', 'g1'):
+                for sf in (None, False):
+                    st = _setters((None, e, sf))
+                    for last in (['G'], ['W', 0]):
+                        out.append([['C', a], ['P', 'slot']] + st + [['G'], ['C', b], ['P', 'slot'], last, ['G']])
+                        out.append(st + [['C', a], ['P', 'slot'], ['W', 0], ['C', b], ['P', 'slot'], last])
     return out
 
 
@@ -751,8 +822,14 @@ def _det_configs(wide):
     return cfgs
 
 
-def _pc(paths, c):
+def _pc(paths, c, slot=None):
+    if isinstance(c[0], str) and c[0].startswith('slot:'):
+        return [{'copy': paths[c[0][5:]], 'to': slot or paths['slotseq']}, c[1], c[2]]
     return [paths[c[0]] if c[0] is not None else None, c[1], c[2]]
+
+
+def _seq_jobs(paths, seqs, d):
+    return [{'job': 'configs', 'configs': [_pc(paths, c, os.path.join(d, f'slotseq_{next(_SERIAL)}.xlsx')) for c in s]} for s in seqs]
 
 
 def _check(name, bound, rule, exhaustive, evals, distinct, fails, samples, t0):
@@ -835,6 +912,15 @@ def run(tier='quick', seed=0):
             'get, change the path, write, get',
             'one evaluation = file bytes (sha256) == utf-8 bytes of the reference text == returned text', True, t0))
 
+        t0 = time.time()
+        hs = _slot_histories()
+        checks.append(_sweep(
+            'C09.monitor.same_path_new_workbook', hs, paths, d, table,
+            f'every ordered pair of 5 workbooks x entries none/c1s/ob1/g1 x safety default/off x get/write x 2 shapes = {len(hs)} histories: '
+            'store workbook a at a path, set the path, get (or write), store workbook b at the same path, set the same path again, get / write',
+            'as history_exhaustive (the setting "path" denotes the workbook stored there when the path was last set; calls made after the '
+            'file was replaced without setting the path again are not judged)', True, t0))
+
         # ---------------- hash seeds / fresh processes
         t0 = time.time()
         cfgs = _det_configs(True)
@@ -845,7 +931,7 @@ def run(tier='quick', seed=0):
             o = list(cfgs)
             random.Random(s).shuffle(o)
             orders.append(o)
-        res = _spawn_many([{'job': 'configs', 'configs': [_pc(paths, c) for c in o]} for o in orders], seeds)
+        res = _spawn_many(_seq_jobs(paths, orders, d), seeds)
         fails, n = {}, 0
         for s, o, r in zip(seeds, orders, res):
             if isinstance(r, dict):
@@ -855,8 +941,22 @@ def run(tier='quick', seed=0):
                 n += 1
                 if not _same(got, table.get(c)):
                     k = 'C09.hashseed.' + ('text' if got['k'] == 'text' else 'outcome')
-                    fails.setdefault(k, {'key': k, 'what': f'PYTHONHASHSEED={s}: {c} -> {_short(got)}; seed 0 gives {_short(table.get(c))}',
-                                         'replay': {'kind': 'sequence', 'configs': [list(x) for x in o[:o.index(c) + 1]], 'hashseed': s, 'key': k}})
+                    if k in fails or 'C09.process_history.in_hashseed_sweep' in fails:
+                        continue
+                    seq = o[:o.index(c) + 1]
+                    # the same sequence with hash seed 0: is it the seed or the earlier translations of the process?
+                    r0 = _spawn(_seq_jobs(paths, [seq], d)[0], 0)
+                    if isinstance(r0, dict) or not _same(r0[-1], table.get(c)):
+                        k, s_used = 'C09.process_history.in_hashseed_sweep', 0
+                        seq = [tuple(x) for x in _min_sequence(seq, paths, table)]
+                    else:
+                        s_used = s
+                        alone = _spawn(_seq_jobs(paths, [[c]], d)[0], s)
+                        if not isinstance(alone, dict) and not _same(alone[-1], table.get(c)):
+                            seq = [c]
+                    fails[k] = {'key': k, 'what': f'PYTHONHASHSEED={s_used}, translations of one process {[list(x) for x in seq]}: last -> {_short(got)}; '
+                                f'alone with seed 0 gives {_short(table.get(c))}',
+                                'replay': {'kind': 'sequence', 'configs': [list(x) for x in seq], 'hashseed': s_used, 'key': k}}
         checks.append(_check(
             'C09.monitor.hashseed_process',
             f'{len(cfgs)} settings (4 small workbooks x 5 entries, corpus workbook with {len(CORPUS)} formulas over every function family / '
@@ -872,8 +972,11 @@ def run(tier='quick', seed=0):
         seqs = [[c for w in p for c in per(w)] for p in itertools.permutations(wbs)]
         # repeated blocks: A B A
         seqs += [per(a) + per(b) + per(a) for a in wbs for b in wbs if a != b]
+        # one path whose workbook is replaced between two translations (new Parser each)
+        seqs += [[('slot:' + a, e, False), ('slot:' + b, e, False), ('slot:' + a, e, False)] for a in SLOT_WBS for b in SLOT_WBS if a != b
+                 for e in (None, 'ob1')]
         table.need({c for s in seqs for c in s})
-        res = _spawn_many([{'job': 'configs', 'configs': [_pc(paths, c) for c in s]} for s in seqs])
+        res = _spawn_many(_seq_jobs(paths, seqs, d))
         fails, n = {}, 0
         for s, r in zip(seqs, res):
             if isinstance(r, dict):
@@ -894,7 +997,8 @@ def run(tier='quick', seed=0):
         checks.append(_check(
             'C09.monitor.process_history',
             f'all {len(list(itertools.permutations(wbs)))} orders of {wbs} (3 settings each: whole file, cross-sheet entry, entry on a sheet whose '
-            f'index differs between workbooks) + all A,B,A blocks = {len(seqs)} processes, each translating its sequence with a new Parser per setting',
+            f'index differs between workbooks) + all A,B,A blocks + (workbook a, b, a stored at one path) for all pairs of 5 workbooks x 2 entries = {len(seqs)} processes, each translating its '
+            'sequence with a new Parser per setting',
             'one evaluation = outcome of the i-th translation in the process == outcome of the same setting in a fresh process',
             True, n, len(seqs), fails, [{'sequence': [list(c) for c in seqs[0][:4]]}], t0))
 
@@ -925,9 +1029,15 @@ def run(tier='quick', seed=0):
                     c = pl[j % len(pl)]
                     if not _same(got, table.get(c)):
                         k = 'C09.threads.' + ('cold' if not job['warm'] else 'warm')
+                        if k in fails or 'C09.process_history.in_thread_sweep' in fails:
+                            continue
+                        ctrl = _spawn({**job, 'sequential': True})
+                        if isinstance(ctrl, dict) or any(not _same(g2, table.get(p2[j2 % len(p2)])) for p2, o2 in zip(plans, ctrl)
+                                                         for j2, g2 in enumerate(o2)):
+                            k = 'C09.process_history.in_thread_sweep'      # also without threads: not a concurrency effect
                         fails.setdefault(k, {'key': k, 'what': f'{len(plans)} threads: {c} -> {_short(got)}; alone gives {_short(table.get(c))}',
                                              'replay': {'kind': 'threads', 'plans': [[list(x) for x in p] for p in plans], 'rounds': job['rounds'],
-                                                        'warm': job['warm'], 'switch': job['switch']}})
+                                                        'warm': job['warm'], 'switch': job['switch'], 'sequential': k.startswith('C09.process')}})
         checks.append(_check(
             'C09.monitor.threads',
             f'{len(jobs)} processes (first translation of the process inside the threads / after a warm-up; switch interval 1e-4..1e-6 s; hash '
@@ -942,7 +1052,7 @@ def _min_sequence(cfgs, paths, table):
     cur = [tuple(c) for c in cfgs]
 
     def bad(seq):
-        r = _spawn({'job': 'configs', 'configs': [_pc(paths, c) for c in seq]})
+        r = _spawn({'job': 'configs', 'configs': [_pc(paths, c, paths['slotseq'] + f'.{next(_SERIAL)}.xlsx') for c in seq]})
         return isinstance(r, dict) or not _same(r[-1], table.get(seq[-1]))
     changed, budget = True, 20
     while changed and budget > 0:
@@ -985,6 +1095,7 @@ def replay(payload):
             return {'fails': f is not None, 'text': f['what'] if f else f'{payload["key"]}: holds for every setting'}
         if k == 'sequence':
             cfgs = [tuple(c) for c in payload['configs']]
+            table.need(cfgs[-1:])
             r = _spawn({'job': 'configs', 'configs': [_pc(paths, c) for c in cfgs]}, payload.get('hashseed', 0))
             if isinstance(r, dict):
                 return {'fails': True, 'text': 'child crashed: ' + r['crash'][-300:]}
@@ -996,7 +1107,7 @@ def replay(payload):
             bad = []
             for _ in range(3):
                 r = _spawn({'job': 'threads', 'plans': [[_pc(paths, c) for c in p] for p in plans], 'rounds': payload['rounds'],
-                            'warm': payload['warm'], 'switch': payload['switch']})
+                            'warm': payload['warm'], 'switch': payload['switch'], 'sequential': payload.get('sequential', False)})
                 if isinstance(r, dict):
                     return {'fails': True, 'text': 'child crashed: ' + r['crash'][-300:]}
                 for pl, outs in zip(plans, r):
